@@ -2,4 +2,4 @@ From Coq Require Import ZArith QArith.
 From Coq Require Import ExtrOcamlBasic ExtrOcamlString.
 From OsmtV.IntArith Require Import DivModModel TightenModel GcdNormModel DLModel.
 Extraction "intarith_model.ml" bounds_int add_bound norm_ineq norm_eq norm_single_leq
-  dl_conv dl_conv_fixed dl_negate safe_add safe_sub safe_neg in_range divmod_def smt_div smt_mod Qred.
+  dl_conv dl_conv_fixed dl_negate safe_add safe_sub safe_neg in_range divmod_def smt_div smt_mod Qred rw_apps rewritten_holds canon_sigma.
